@@ -50,12 +50,33 @@ func proto3(p spec.Protocol) string {
 
 // decode runs Unmarshal (or a strict Decoder) under the panic / allocation monitors.
 func decode(c *explore.Ctx, p spec.Protocol, t reflect.Type, in []byte, strict bool, site string) (reflect.Value, error, bool) {
+	return decodeVia(c, p, t, in, strict, site, nil)
+}
+
+// onlyRead hides everything but Read (no Len, no ReadByte, no WriteTo): what a network connection or a file looks like.
+type onlyRead struct{ r io.Reader }
+
+func (o onlyRead) Read(p []byte) (int, error) { return o.r.Read(p) }
+
+// decodeVia: mk == nil decodes with Unmarshal (or a strict Decoder on a bytes.Reader); otherwise with a
+// Decoder on the reader mk builds. The allocation budget applies either way.
+func decodeVia(c *explore.Ctx, p spec.Protocol, t reflect.Type, in []byte, strict bool, site string, mk func([]byte) io.Reader) (reflect.Value, error, bool) {
 	out := reflect.New(t)
 	var err error
 	warm(p, t)
+	run := func(dst any) error {
+		if mk != nil {
+			d := thrift.NewDecoder(impl(p).NewReader(mk(in)))
+			d.SetStrict(strict)
+			return d.Decode(dst)
+		}
+		return thrift.Unmarshal(impl(p), in, dst)
+	}
 	before := allocated()
 	pv, ps := explore.Catch(func() {
-		if strict {
+		if mk != nil {
+			err = run(out.Interface())
+		} else if strict {
 			d := thrift.NewDecoder(impl(p).NewReader(bytes.NewReader(in)))
 			d.SetStrict(true)
 			err = d.Decode(out.Interface())
@@ -72,7 +93,7 @@ func decode(c *explore.Ctx, p spec.Protocol, t reflect.Type, in []byte, strict b
 	// include earlier allocations: only a reproducible excess counts
 	for rep := 0; rep < 3 && used > budget(len(in)); rep++ {
 		b0 := allocated()
-		explore.Catch(func() { thrift.Unmarshal(impl(p), in, reflect.New(t).Interface()) })
+		explore.Catch(func() { run(reflect.New(t).Interface()) })
 		if u := allocated() - b0; u < used {
 			used = u
 		}
@@ -1211,7 +1232,18 @@ func hostileSizes(c *explore.Ctx) {
 	if unknown {
 		name += " in an undeclared field"
 	}
-	_, err, ok := decode(c, p, reflect.TypeOf(T1{}), in, false, "hostile-size:"+name)
+	// through Unmarshal, and through a Decoder on a reader that can only Read / on a small bufio.Reader
+	via := c.Choose(3)
+	var mk func([]byte) io.Reader
+	switch via {
+	case 1:
+		mk = func(in []byte) io.Reader { return onlyRead{bytes.NewReader(in)} }
+		name += " (Decoder on a plain io.Reader)"
+	case 2:
+		mk = func(in []byte) io.Reader { return bufio.NewReaderSize(bytes.NewReader(in), 64) }
+		name += " (Decoder on a bufio.Reader)"
+	}
+	_, err, ok := decodeVia(c, p, reflect.TypeOf(T1{}), in, false, "hostile-size:"+name, mk)
 	// the claimed count can never be satisfied by the bytes present (size > len(payload) for every case but size=3 with 64 bytes, which is excluded from the must-fail set)
 	eff := size
 	if bin {
@@ -1249,7 +1281,7 @@ func Spec() *explore.Spec {
 			{Name: "mismatch-alloc", ShardDepth: 2, Body: mismatchAlloc, Doc: "10..60000 map headers with mismatching key/value types, each announcing 1024 entries, inside a list: error, allocation within the bound"},
 			{Name: "embedded-targets", ShardDepth: 2, Body: embeddedTargets, Doc: "5 targets with embedded structs (pointer to an unexported / exported struct, unexported struct by value, unions whose members sit in an embedded pointer) x 4 field selections x 3 protocols: no panic; the value (or, where the embedded pointer cannot be set, an error); a decoded member is not lost"},
 			{Name: "union", ShardDepth: 2, Body: unionFamily, Doc: "a struct with a `thrift:\",union\"` field: each member (or none) x an unknown field of every thrift type, or a declared field with another wire type (non-strict), placed before / after / around the member: the member and the union interface keep their values"},
-			{Name: "hostile-sizes", ShardDepth: 2, Body: hostileSizes, Doc: "list/set/map/binary/string sizes replaced by {-1, MinInt32, MaxInt32, 2^20, 2^16, 3, 2^40, 2^27+3, 2^28, 2^29, 2^29+1, 2^30, 2^30+1} with 0/1/2/64/70000 payload bytes (01s or 00s) present, the items announced with the declared or with each of 9 other types (then skipped), in the declared field or in an undeclared one: error, no panic, allocation within 1 MiB + 1024 x len(input)"},
+			{Name: "hostile-sizes", ShardDepth: 2, Body: hostileSizes, Doc: "list/set/map/binary/string sizes replaced by {-1, MinInt32, MaxInt32, 2^20, 2^16, 3, 2^40, 2^27+3, 2^28, 2^29, 2^29+1, 2^30, 2^30+1} with 0/1/2/64/70000 payload bytes (01s or 00s) present, the items announced with the declared or with each of 9 other types (then skipped), in the declared field or in an undeclared one, decoded by Unmarshal and by a Decoder on a reader that can only Read / on a 64-byte bufio.Reader: error, no panic, allocation within 1 MiB + 1024 x len(input)"},
 		},
 		Rule: "exhaustive short inputs per Reader method and complete truncation / corruption / insertion / substitution sets per valid encoding; distinct non-trivial = distinct (type, value, protocol) or (protocol, method) blocks",
 		Assumptions: []string{
